@@ -2,7 +2,8 @@ from check import run_diff_property
 
 CFG = dict(
     streams=[('cert', 14, 200)],
-    oracle_ops={'cert'},
+    oracle_ops={'cert', 'certrace'},
+    race=True,
     rule=("real file system, real fsnotify, real CertWatcher behind defaultTLSConfig: histories of 2..16 update steps in one of the "
           "three styles — in place (truncate, garbage, partial write, full write, either file order), rename of a new file over "
           "the path (either order), kubernetes-style swap of the symlinked directory (matching and mismatched pairs) — after every "
